@@ -68,9 +68,10 @@ Comp(L, k, pos) ==
                        : kl \in 0..k1, p \in (IF pos = 0 THEN MapPrims \ {"big_map"} ELSE MapPrims)}
          : a \in AnnSet(k, pos)}
 Lvl0 == [k \in 0..MaxAnn |-> [pos \in 0..2 |-> Leaves(k, pos)]]
-Lvl1 == [k \in 0..MaxAnn |-> [pos \in 0..2 |-> Lvl0[k][pos] \cup Comp(Lvl0, k, pos)]]
-Lvl2 == [k \in 0..MaxAnn |-> [pos \in 0..2 |-> Lvl0[k][pos] \cup Comp(Lvl1, k, pos)]]
-Lvl3 == [k \in 0..MaxAnn |-> [pos \in 0..2 |-> Lvl0[k][pos] \cup Comp(Lvl2, k, pos)]]
+\* (TLC evaluates every constant definition at start-up, hence the guards)
+Lvl1 == IF MaxDepth < 1 THEN <<>> ELSE [k \in 0..MaxAnn |-> [pos \in 0..2 |-> Lvl0[k][pos] \cup Comp(Lvl0, k, pos)]]
+Lvl2 == IF MaxDepth < 2 THEN <<>> ELSE [k \in 0..MaxAnn |-> [pos \in 0..2 |-> Lvl0[k][pos] \cup Comp(Lvl1, k, pos)]]
+Lvl3 == IF MaxDepth < 3 THEN <<>> ELSE [k \in 0..MaxAnn |-> [pos \in 0..2 |-> Lvl0[k][pos] \cup Comp(Lvl2, k, pos)]]
 GenUniverse == CASE MaxDepth = 0 -> Lvl0[MaxAnn][2] [] MaxDepth = 1 -> Lvl1[MaxAnn][2]
                  [] MaxDepth = 2 -> Lvl2[MaxAnn][2] [] OTHER -> Lvl3[MaxAnn][2]
 
